@@ -100,9 +100,11 @@ def scenario(rng, kind):
             # the connection's transport is lost while calls are in progress or queued: every one of them still
             # returns (its remaining attempts are silent), none waits for ever
             pass            # (the engine scenario logs the loss of the transport itself)
-        if not kind.startswith("gate") and kind != "overlap":
+        if not kind.startswith("gate") and kind not in ("overlap", "cancel"):
             net.s2c = s2c
         n_calls = rng.choice([1, 2, 3, 5, 8]) if kind != "active-lossy" else 1
+        if kind == "cancel":
+            n_calls = 3
         if kind == "overlap":
             n_calls = rng.choice([1, 2, 3])
         if kind == "down":
@@ -163,6 +165,8 @@ def scenario(rng, kind):
             for i in range(n_calls):
                 name, api = rng.choice(sc.apis())
                 sc.start_call(api, gated=True)
+                if kind == "cancel":
+                    continue
                 if kind == "down":
                     s.advance(rng.choice([0, 0, 0.05]))
                     if i + 1 == close_after:
@@ -170,6 +174,17 @@ def scenario(rng, kind):
                         s.advance(rng.choice([0, 0.05]))
                     continue
                 s.advance(0 if kind == "overlap" else rng.choice([0, 0, 0.05, 0.13, 0.5, 2.0]))
+            if kind == "cancel":
+                # the first caller's owner gives up on it just after its answer was taken from the queue (a deadline
+                # that fires as the reply arrives): whatever that does to the first call, the others are served
+                t0_ = s.loop.time()
+                first = sc.tasks[0].get_name()
+                while s.loop.time() - t0_ < 60:
+                    if any(e["k"] == "pop" and e["by"] == first for e in sc.tap.log):
+                        break
+                    s.advance(0.01)
+                s.advance(rng.choice([0.01, 0.03, 0.06, 0.09]))
+                sc.tasks[0].cancel()
             # let every call finish (worst case R x (T + P))
             c = consts()
             # every call completes: the explicit calls queue behind each other AND behind the background callers
@@ -228,7 +243,7 @@ def run(ctx):
     logs = []
     n = 24 if ctx.quick else 400
     for i in range(n):
-        kind = "overlap" if i % 8 == 2 else "down" if i % 8 == 4 else "gate" if i % 8 == 7 else "gate-active" if i % 8 == 3 else "chatter" if i % 8 == 5 else "stall" if i % 8 == 1 else "active-lossy" if i % 8 == 6 else "calls"
+        kind = "cancel" if i % 8 == 0 and i > 0 else "overlap" if i % 8 == 2 else "down" if i % 8 == 4 else "gate" if i % 8 == 7 else "gate-active" if i % 8 == 3 else "chatter" if i % 8 == 5 else "stall" if i % 8 == 1 else "active-lossy" if i % 8 == 6 else "calls"
         if kind.startswith("gate") and (i // 8) % 2 == 1:
             kind += "-late"
         logs.append(scenario(rng, kind))
